@@ -64,11 +64,13 @@ def generate(seed, stratum, tier):
       objs[x]['react']['SC'] = [{'op': 'publish', 'sig': 'SD', 'prio': rng.choice([None, 1]), 'id': 2, 'max': 3}]
       c.append(['post_fifo', x, 'SC'])
   c.append(['await_idle'])
-  return {'objects': objs, 'queue_size': 500, 'clients': [c],
+  return {'objects': objs, 'queue_size': 500, 'clients': [c], 'stalls': common.draw_stalls(rng, 2500, rate=0.3),
           'sched': common.draw_sched(rng, grans=('sync', 'line'), expected_steps=2500, victims=[rng.choice(['consumer', 'fabric.fifo', 'fabric.lifo'])])}
 
 
 def shrink_candidates(sc):
+  if sc.get('stalls'):
+    yield dict(sc, stalls={})
   s = sc['clients'][0]
   for j in range(len(s) - 1, -1, -1):
     if s[j][0] in ('start',):
